@@ -63,6 +63,10 @@ func execRun(bin string, s *spec.RunSpec, wallLimit time.Duration) *spec.RunResu
 		if os.Getenv("VSIM_MIERU_LOG") != "" {
 			os.Stderr.Write(stderr.Bytes())
 		}
+		if strings.Contains(stderr.String(), "WARNING: DATA RACE") {
+			res.Crash = raceSignature(stderr.String())
+			res.Info = merge(res.Info, map[string]string{"stderr": tail(stderr.String(), 6000)})
+		}
 		return res
 	}
 	res.WallMs = wall.Milliseconds()
@@ -132,4 +136,26 @@ func normalisePanic(l string) string {
 		l = l[:160]
 	}
 	return l
+}
+
+// raceSignature names a data race by its first two mieru frames.
+func raceSignature(stderr string) string {
+	i := strings.Index(stderr, "WARNING: DATA RACE")
+	lines := strings.Split(stderr[i:], "\n")
+	var frames []string
+	for _, l := range lines {
+		l = strings.TrimSpace(l)
+		if strings.HasPrefix(l, "github.com/enfein/mieru/") || strings.HasPrefix(l, "verifsim/") {
+			if k := strings.LastIndex(l, "("); k > 0 {
+				l = l[:k]
+			}
+			if len(frames) == 0 || frames[len(frames)-1] != l {
+				frames = append(frames, l)
+			}
+			if len(frames) == 2 {
+				break
+			}
+		}
+	}
+	return "DATA RACE @ " + strings.Join(frames, " / ")
 }
